@@ -503,6 +503,7 @@ def write_harness(kind: str):
                 if k == 1:
                     e = VObj(d.DoIPNegativeAckError, {"args": VTuple([]),
                                                       "nack_code": I2.fresh_int("nack", 0, 255)})
+                    outcome["exc"] = e
                     raise PyExc(e)
                 return NONE
             return coro(go)
@@ -513,7 +514,8 @@ def write_harness(kind: str):
                 k = I2.choose([z3.BoolVal(True)] * 2)
                 outcome["v"] = ["success", "denied"][k]
                 if k == 1:
-                    raise PyExc(VObj(d.DoIPRoutingActivationDeniedError, {"args": VTuple([])}))
+                    outcome["exc"] = VObj(d.DoIPRoutingActivationDeniedError, {"args": VTuple([])})
+                    raise PyExc(outcome["exc"])
                 return NONE
             return coro(go)
         I.ex.contracts[d.DoIPConnection._read_ack] = read_ack
@@ -564,6 +566,14 @@ def write_harness(kind: str):
             else:
                 I.prove("X-negative-outcome-is-a-connection-error", z3.BoolVal(
                     raised is not None and issubclass(raised.cls, ConnectionError)))
+                # the caller must be able to tell *which* negative acknowledgement it got
+                # (DoIPTransport.write tolerates exactly TargetUnreachable), and a negative
+                # acknowledgement does not cost the connection
+                I.prove("X-negative-acknowledgement-reaches-the-caller-with-its-code",
+                        z3.BoolVal(raised is outcome.get("exc")),
+                        f"raised {raised.cls.__name__ if raised is not None else None}")
+                I.prove("X-negative-acknowledgement-leaves-the-connection-open",
+                        z3.BoolVal(I.ghost["closes"] == 0))
             if kind == "diag" and I.ghost["ack_waits"]:
                 I.prove("X-ack-is-matched-against-the-written-user-data",
                         z3.BoolVal(I.ghost.get("ack_prev") is data))
@@ -722,6 +732,8 @@ def native_replay(unit: str, obligation: str, model: dict) -> tuple[bool, str]:
         got = int(d.RoutingActivationRequestTypes(at)) if "RoutingActivationRequestTypes(" in \
             inspect.getsource(d.DoIPTransport._connect) else at
         return got != at, f"activation type {at} is sent as {got:#x}"
+    if "negative-acknowledgement" in obligation:
+        return native_nack()
     if unit.startswith("framing/"):
         return native_segmentation()
     if unit == "write/routing" or obligation.startswith("C-activation-type"):
@@ -729,6 +741,32 @@ def native_replay(unit: str, obligation: str, model: dict) -> tuple[bool, str]:
     if unit.startswith("demux-scripted/"):
         return native_scripted(unit.split("/")[1])
     return False, "no native replay for this obligation"
+
+
+def native_nack() -> tuple[bool, str]:
+    """every negative acknowledgement code: the writer gets DoIPNegativeAckError with that code,
+    the connection stays open; at transport level TargetUnreachable (0x06) is tolerated"""
+    d = D()
+
+    async def go() -> tuple[bool, str]:
+        for code in (0x02, 0x03, 0x04, 0x05, 0x06, 0x07, 0x08):
+            r = asyncio.StreamReader()
+            w = FakeWriter()
+            conn = d.DoIPConnection(r, w, 0x0E00, 0x1D, 3)  # type: ignore[arg-type]
+            data = b"\x22\xf1\x90"
+            r.feed_data(frame(d, 0x8003, bytes([0x00, 0x1D, 0x0E, 0x00, code]) + data))
+            got: Any = None
+            try:
+                await asyncio.wait_for(conn.write_diag_request(data), 3)
+            except Exception as e:  # noqa: BLE001
+                got = e
+            closed = conn._is_closed
+            conn._read_task.cancel()
+            if not isinstance(got, d.DoIPNegativeAckError) or int(got.nack_code) != code or closed:
+                return True, (f"negative acknowledgement {code:#04x} for a diagnostic message: "
+                              f"write raised {got!r}, connection closed: {closed}")
+        return False, "negative acknowledgements reach the writer with their code, connection open"
+    return asyncio.run(go())
 
 
 def native_activation_types() -> tuple[bool, str]:
